@@ -79,6 +79,7 @@ type PathResult struct {
 	Assumptions  map[string]bool
 	Symbolic     bool // path condition constrains at least one input
 	Sample       string
+	PassWitness  *Violation
 	VisibleOps   int
 	Threads      int
 }
